@@ -26,7 +26,7 @@ func init() {
 
 var writerCtors = []string{"newConcurrentRowGroupWriter", "newWriter"}
 
-func c17ResetSpecs() []resetSpec {
+func c17ResetSpecs(p *Prog) []resetSpec {
 	headerWhy := "per-page scratch header: every serialised field is assigned in the same call before the header is encoded (C13.always and C02.header check those assignments)"
 	specs := []resetSpec{
 		{Type: "ColumnWriter", Reset: []string{"(*writer).reset"}, Constructors: writerCtors, Exempt: map[string]string{
@@ -107,13 +107,41 @@ func c17ResetSpecs() []resetSpec {
 		}
 		specs = append(specs, sp)
 	}
+	// every other implementation of the three per-column interfaces that has a
+	// Reset of its own (the list above is what was read; this is what exists)
+	have := map[string]bool{}
+	for _, s := range specs {
+		have[s.Type] = true
+	}
+	for _, in := range []string{"ColumnIndexer", "Dictionary", "ColumnBuffer"} {
+		it := p.LookupType(in)
+		if it == nil {
+			continue
+		}
+		iface, _ := it.Underlying().(*types.Interface)
+		for _, t := range p.Implementations(iface) {
+			nt := namedOf(t)
+			if nt == nil || nt.Obj().Pkg() != p.Root.Types || have[nt.Obj().Name()] {
+				continue
+			}
+			m, promoted := MethodOf(t, "Reset")
+			if m == nil || promoted {
+				continue
+			}
+			if _, isStruct := nt.Underlying().(*types.Struct); !isStruct {
+				continue
+			}
+			have[nt.Obj().Name()] = true
+			specs = append(specs, resetSpec{Type: nt.Obj().Name(), Reset: []string{"(*" + nt.Obj().Name() + ").Reset"}, Exempt: map[string]string{}})
+		}
+	}
 	return specs
 }
 
 func runC17(c *Ctx) {
 	p := c.P
 	ci := newChainIndex(p)
-	specs := c17ResetSpecs()
+	specs := c17ResetSpecs(p)
 	boundary := map[*types.Var]bool{}
 	for _, s := range specs {
 		if n := p.LookupType(s.Type); n != nil {
